@@ -67,7 +67,13 @@ type Case struct {
 	Subs    [][]int `json:"subs"`  // sub-projects: sequences of distinct class indexes
 }
 
-func (m Method) isHandler() bool { return m.Form != "" && m.Form != "override" }
+func (m Method) isHandler() bool {
+	return m.Form != "" && m.Form != "override" && m.Form != "otherAnnotation"
+}
+
+// annotations that are not HTTP mappings, some of them named ...Mapping
+var otherAnnotations = []string{"@MessageMapping(\"/chat\")", "@SubscribeMapping(\"/init\")", "@QueryMapping", "@SchemaMapping(typeName = \"Book\")",
+	"@ExceptionHandler(IllegalStateException.class)", "@Scheduled(fixedRate = 5000)", "@Transactional", "@ModelAttribute(\"user\")"}
 
 // ---------------------------------------------------------------------------------------
 // generator
@@ -85,7 +91,11 @@ var (
 
 func genMethod(t *rapid.T, name string, inController bool) Method {
 	m := Method{Name: name, Ret: rapid.SampledFrom(retTypes).Draw(t, "ret")}
-	switch rapid.IntRange(0, 11).Draw(t, "form") {
+	switch rapid.IntRange(0, 12).Draw(t, "form") {
+	case 12:
+		// a non-handler method carrying some other annotation (messaging, GraphQL, scheduling ...)
+		m.Form = "otherAnnotation"
+		m.Path = rapid.SampledFrom(otherAnnotations).Draw(t, "otherAnnotation")
 	case 0, 1:
 		m.Form = ""
 	case 2:
@@ -246,6 +256,8 @@ func render(cl Class) string {
 		switch m.Form {
 		case "override":
 			sb.WriteString(ind + "@Override\n")
+		case "otherAnnotation":
+			sb.WriteString(ind + m.Path + "\n")
 		case "shorthand":
 			sb.WriteString(ind + "@" + ann + "(\"" + m.Path + "\")\n")
 		case "nopath":
